@@ -98,6 +98,17 @@ def impl(case):
                 stored = res.trajectories["est"]
                 ids = list(range(len(est))) if case["tool"] == "ape" else [0] + list(range(1, len(est)))
                 out = {"A": H(A) if A is not None else None, "poses": [H(p) for p in stored.poses_se3], "n_stored": int(stored.num_poses)}
+                if case["n"] != -1 and (case["align"] or case["cs"]) and case["n"] < len(est):
+                    # "determines it from the first n pose pairs only": other poses behind index n, same alignment
+                    rg = np.random.default_rng(len(est))
+                    def other(ps):
+                        qs = [p.copy() for p in ps]
+                        for q in qs[case["n"]:]:
+                            q[:3, 3] = q[:3, 3] * rg.uniform(1.5, 3.0) + rg.normal(size=3)
+                        return qs
+                    res2 = fn(traj_from(other(ref), stamps), traj_from(other(est), stamps), metrics.PoseRelation.translation_part, **kw)
+                    A2 = res2.np_arrays.get("alignment_transformation_sim3")
+                    out["A_tail_changed"] = H(A2) if A2 is not None else None
         except geometry.GeometryException:
             out = {"refused": "GeometryException"}
         except Exception as e:  # noqa
@@ -245,6 +256,10 @@ def judge(case, val, out):
             if not np.allclose(q[:3, 3], want, rtol=1e-8, atol=1e-8 * scale):
                 return _sv("recorded alignment matrix does not map unaligned estimate position %d onto the stored one "
                            "(max deviation %.3g)" % (k, float(np.abs(q[:3, 3] - want).max())))
+    if "A_tail_changed" in out and not case["origin"]:
+        A2 = U(out["A_tail_changed"], (4, 4)) if out["A_tail_changed"] is not None else None
+        if A is None or A2 is None or not np.allclose(A, A2, rtol=1e-12, atol=1e-12 * scale):
+            return _sv("n_to_align = %d: the recorded alignment changes when only poses behind the first n are changed" % case["n"])
     if model is None:
         return _mv("model refuses the alignment stage", "Align.align_stage")
     mp, mA = model
